@@ -267,7 +267,7 @@ theorem ev_recv {V : Variant} {v1 : Bool} {sS sR : List Bytes} {s : State} {j : 
     (c : Option Nat) (a : Nat) (mode : Mode)
     (hA' : All V (stepLive V s (.recv c a mode)).1) :
     R' V v1 sS sR (stepLive V s (.recv c a mode)).1
-      (pairStep j (.recv c a mode) (stepLive V s (.recv c a mode)).2) := by
+      (pairStepOld j (.recv c a mode) (stepLive V s (.recv c a mode)).2) := by
   simp only [stepLive] at hA' ⊢
   by_cases hb : aioBusy s a = true
   · simp only [hb, if_true] at hA' ⊢
